@@ -155,7 +155,8 @@ FRAMES += [
     "class Meta(type):\n    def __new__(m, n, b, d):\n        d['names'] = sorted(k for k in d if not k.startswith('_'))\n        return super().__new__(m, n, b, d)\n\n\nclass K(metaclass=Meta):\n    {v} = 1\n\n\nprint(K.names)\n",
 ]
 
-RULES = ["fixes.align_variable_names_with_convention", "fixes.undefine_unused_variables", "fixes.remove_duplicate_functions", "object_oriented.move_staticmethod_static_scope", "fixes.merge_nested_comprehensions", "format_code"]
+RULES = ["fixes.align_variable_names_with_convention", "fixes.undefine_unused_variables", "fixes.remove_duplicate_functions", "object_oriented.move_staticmethod_static_scope", "fixes.merge_nested_comprehensions",
+         "fixes.replace_nested_loops_with_set_list_comp", "abstractions.overused_constant", "format_code"]      # the last two before format_code INVENT names (loop variables, constants)
 
 
 def work_names(chunk):
@@ -186,11 +187,13 @@ def format_code_without_renaming(src):
     import pyrefact
     from pyrefact import fixes, object_oriented, processing
 
-    def nothing(source, preserve=frozenset()):
+    def nothing(source, preserve=frozenset(), **_options):
         return
         yield
     noop = processing.fix(nothing)
-    targets = [(fixes, "align_variable_names_with_convention"), (fixes, "undefine_unused_variables"), (fixes, "remove_duplicate_functions"), (object_oriented, "move_staticmethod_static_scope")]
+    from pyrefact import abstractions
+    targets = [(fixes, "align_variable_names_with_convention"), (fixes, "undefine_unused_variables"), (fixes, "remove_duplicate_functions"), (object_oriented, "move_staticmethod_static_scope"),
+               (fixes, "replace_nested_loops_with_set_list_comp"), (abstractions, "overused_constant")]
     saved = [(m, n, getattr(m, n)) for m, n in targets]
     try:
         for m, n in targets:
